@@ -14,6 +14,7 @@ type lruOp struct {
 	k    uint64
 	id   uint64
 	d    bool
+	lsn  uint64 // flip only: the LSN handed to markDirty (it may be below the page's current one)
 }
 
 func (o lruOp) String() string {
@@ -23,7 +24,7 @@ func (o lruOp) String() string {
 	case "get":
 		return fmt.Sprintf("get %d", o.k)
 	}
-	return fmt.Sprintf("flip %d %s", o.k, b01(o.d))
+	return fmt.Sprintf("flip %d %s %d", o.k, b01(o.d), o.lsn)
 }
 
 func b01(b bool) string {
@@ -86,7 +87,7 @@ func lruRunCase(cfg *config, id int, cap int, ops []lruOp) {
 				cfg.st.Inc("misses")
 			}
 		case "flip":
-			v.SetDirty(o.k, o.d)
+			v.Mark(o.k, o.d, o.lsn)
 			tr.Out("flip %s", lruState(v))
 		}
 		cfg.st.Inc("op." + o.kind)
@@ -128,6 +129,9 @@ func lruParse(lines []string) (cap int, ops []lruOp) {
 			o.kind = "flip"
 			fmt.Sscan(f[1], &o.k)
 			fmt.Sscan(f[2], &d)
+			if len(f) > 3 {
+				fmt.Sscan(f[3], &o.lsn)
+			}
 		default:
 			continue
 		}
@@ -172,6 +176,7 @@ func runLRU(cfg *config) {
 			for i, x := range idx {
 				ops[i] = alpha[x]
 				ops[i].id = uint64(10*(i+1)) + ops[i].k
+				ops[i].lsn = uint64(7 * (depth - i)) // descending: a later change carries a lower LSN than the page has
 			}
 			id++
 			exh++
@@ -233,7 +238,7 @@ func runLRU(cfg *config) {
 			case x < 8:
 				ops[j] = lruOp{kind: "get", k: k}
 			default:
-				ops[j] = lruOp{kind: "flip", k: k, d: r.Chance(dirtyBias, 10)}
+				ops[j] = lruOp{kind: "flip", k: k, d: r.Chance(dirtyBias, 10), lsn: uint64(r.Intn(20))}
 			}
 		}
 		id++
